@@ -147,12 +147,19 @@ class NativeRunner:
         self.exe = exe
         self.p = None
         self.calls = 0
+        self.trace = None
         self._start()
 
     def _start(self):
         self.p = subprocess.Popen([self.exe], stdin=subprocess.PIPE, stdout=subprocess.PIPE, stderr=subprocess.DEVNULL, bufsize=0)
 
     def cmd(self, line):
+        out = self._cmd(line)
+        if self.trace is not None:
+            self.trace.append((line, out))
+        return out
+
+    def _cmd(self, line):
         self.calls += 1
         if self.p.poll() is not None:
             self._start()
@@ -288,10 +295,21 @@ class Check:
         replay0 = replay
 
         def replay(vals):
+            for r in self.ws.runners.values():
+                r.trace = []
             try:
-                return replay0(vals)
+                res = replay0(vals)
             except Exception as e:      # a replay that cannot be carried out is never a confirmation
-                return False, "replay failed: %s: %s" % (type(e).__name__, e)
+                res = (False, "replay failed: %s: %s" % (type(e).__name__, e))
+            self.last_native = [(prof, c, o) for prof, r in self.ws.runners.items() for (c, o) in (r.trace or [])]
+            if self.last_native:
+                self.last_nonempty_native = self.last_native
+            else:
+                # the native probes of a unit are run once per check and cached: reuse their record
+                self.last_native = getattr(self, "last_nonempty_native", [])
+            for r in self.ws.runners.values():
+                r.trace = None
+            return res
         return self._oblige(ex, unit, name, post, inputs, replay, describe, pre, witness)
 
     def _oblige(self, ex, unit, name, post, inputs, replay, describe=None, pre=None, witness=True):
@@ -356,7 +374,7 @@ class Check:
             vals = {k: model_value(m, v) for k, v in inputs.items()}
             ok, detail = replay(vals)
             rec = {"unit": unit, "obligation": name, "inputs": vals, "replay": detail, "reproduced": ok,
-                   "description": describe(vals) if describe else ""}
+                   "description": describe(vals) if describe else "", "native_commands": getattr(self, "last_native", [])}
             if ok:
                 self.violations.append(rec)
                 verdict = "VIOLATED"
